@@ -236,9 +236,11 @@ def main():
              [("i32", x) for x in int_pool(rng, 32, nr)] + [("i64", x) for x in int_pool(rng, 64, nr)]
     digits = [("f32", x) for x in needs_all_digits(rng, "f32", 24 if tier == "quick" else 400)] + \
              [("f64", x) for x in needs_all_digits(rng, "f64", 24 if tier == "quick" else 400)]
+    import hardfloat
+    hard = [("f32", x) for x in hardfloat.pool()]
     if tier == "quick":
-        # keep every class corner, thin out the rest
-        keep = consts[::3] + [c for c in consts if c[0] in ("i32", "i64")][:40]
+        # keep every class corner (and the double-rounding cases), thin out the rest
+        keep = hard + consts[::3] + [c for c in consts if c[0] in ("i32", "i64")][:40]
         consts = list(dict.fromkeys(keep + digits + [c for c in consts if (c[1] >> (20 if c[0] == "f32" else 49)) & 0xFFF in (0x7FF, 0xFFF, 0x7F8, 0xFF8, 0)]))
     if tier != "quick":
         consts = list(dict.fromkeys(consts + digits))
